@@ -104,6 +104,21 @@ Proof.
   - destruct Hoff.
 Qed.
 
+(* R = sum over nodes of 1 - X_i - Y_i (SIR systems), S = sum of 1 - Y_i (SIS systems) *)
+Theorem node_complement_outputs_invariant sys V V' : veq V' (perm_state idx nl2 sys V) ->
+  (sys = 1%nat \/ sys = 3%nat ->
+     sumn n (fun i => 1 - vnth i V' - vnth (n + i) V') == sumn n (fun i => 1 - vnth i V - vnth (n + i) V)) /\
+  (sys = 0%nat \/ sys = 2%nat -> sumn n (fun i => 1 - vnth i V') == sumn n (fun i => 1 - vnth i V)).
+Proof.
+  intros H. split; intros Hs.
+  - assert (B0 : block_sum n 0 V' == block_sum n 0 V) by (apply (node_outputs_invariant sys V V' 0 H); destruct Hs; subst; cbn; auto).
+    assert (Bn : block_sum n n V' == block_sum n n V) by (apply (node_outputs_invariant sys V V' n H); destruct Hs; subst; cbn; auto).
+    unfold block_sum in B0, Bn. cbn [Nat.add] in B0.
+    rewrite !sumn_sub, B0, Bn. reflexivity.
+  - assert (B0 : block_sum n 0 V' == block_sum n 0 V) by (apply (node_outputs_invariant sys V V' 0 H); destruct Hs; subst; cbn; auto).
+    unfold block_sum in B0. cbn [Nat.add] in B0. rewrite !sumn_sub, B0. reflexivity.
+Qed.
+
 (* ---------- lengths ---------- *)
 Lemma rhs2_node_length sys V t : length (rhs2_node sys G nodelist idx tr rc V t) = state_len sys n.
 Proof.
